@@ -2,6 +2,8 @@ import AL.Model.ExprConv
 import AL.Model.Insecure
 import AL.Model.Json
 import AL.Gen.Builtins
+import AL.Lemmas.SemaCase
+import AL.Model.Facts
 /-
   C08 — names are matched case-insensitively everywhere (expression level).
   Statements; proved theorems are added below by name.
@@ -60,5 +62,106 @@ def json_keys_folded_statement : Prop :=
     (∀ s, lower (lower s) = lower s) →
     AL.Json.typeOf lower (.obj ms) = .obj ((AL.Json.memberTys lower ms [])) none ∧
     ((k, t) ∈ AL.Json.memberTys lower ms [] → lower k = k)
+
+/-! ### proofs -/
+
+mutual
+/-- after `toE` two `CaseEq` trees are equal up to the spelling of callees and of index literals -/
+theorem spellEq_of_caseEq (lower : String → String) : ∀ {e e' : Parse.Expr}, CaseEq lower e e' →
+    SpellEq lower (toE lower e) (toE lower e')
+  | _, _, .null => by simp only [toE]; exact .null
+  | _, _, .bool _ => by simp only [toE]; exact .bool
+  | _, _, .int _ => by simp only [toE]; exact .num
+  | _, _, .float _ _ => by simp only [toE]; exact .num
+  | _, _, .str _ => by simp only [toE]; exact .str _
+  | _, _, .var _ _ h => by simp only [toE, h]; exact .var _
+  | _, _, .call _ _ _ _ hc has => by
+    simp only [toE]; exact .call _ _ _ _ hc (spellEqList_of_caseEqList lower has)
+  | _, _, .objDeref _ _ _ _ hr hp => by
+    simp only [toE, hp]; exact .objDeref _ _ _ (spellEq_of_caseEq lower hr)
+  | _, _, .arrDeref _ _ hr => by simp only [toE]; exact .arrDeref _ _ (spellEq_of_caseEq lower hr)
+  | _, _, .index _ _ _ _ hr hi => by
+    simp only [toE]; exact .index _ _ _ _ (spellEq_of_caseEq lower hr) (spellEq_of_caseEq lower hi)
+  | _, _, .indexLit _ _ _ _ hr hv => by
+    simp only [toE]; exact .indexLit _ _ _ _ (spellEq_of_caseEq lower hr) hv
+  | _, _, .not _ _ he => by simp only [toE]; exact .not _ _ (spellEq_of_caseEq lower he)
+  | _, _, .cmp _ _ _ _ _ hl hr => by
+    simp only [toE]; exact .cmp _ _ _ _ _ (spellEq_of_caseEq lower hl) (spellEq_of_caseEq lower hr)
+  | _, _, .logical k _ _ _ _ hl hr => by
+    cases k <;> simp only [toE] <;>
+      exact .logical _ _ _ _ _ (spellEq_of_caseEq lower hl) (spellEq_of_caseEq lower hr)
+theorem spellEqList_of_caseEqList (lower : String → String) : ∀ {es es' : List Parse.Expr},
+    CaseEqList lower es es' → SpellEqList lower (toEs lower es) (toEs lower es')
+  | _, _, .nil => by simp only [toEs]; exact .nil
+  | _, _, .cons _ _ _ _ he hes => by
+    simp only [toEs]; exact .cons _ _ _ _ (spellEq_of_caseEq lower he) (spellEqList_of_caseEqList lower hes)
+end
+
+/-- (a); the idempotence hypothesis is not needed. -/
+theorem check_case_insensitive : check_case_insensitive_statement := by
+  intro Γ e e' _ h
+  exact check_spell (spellEq_of_caseEq Γ.lower h)
+
+theorem keywords_case_sensitive : keywords_case_sensitive_statement := by
+  intro lower
+  refine ⟨?_, by simp only [toE]⟩
+  simp only [toE]
+  congr
+
+theorem json_keys_folded : json_keys_folded_statement := by
+  intro lower ms k t hl
+  refine ⟨by rw [AL.Json.typeOf], ?_⟩
+  exact AL.Json.memberTys_keys lower hl ms [] (fun _ h => nomatch h) k t
+
+/-! ### concrete instances -/
+
+/-- a folding function on the handful of names of the example (idempotent by construction) -/
+def exLower (s : String) : String :=
+  if s = "GitHub" then "github" else if s = "Event" then "event" else if s = "Title" then "title"
+  else if s = "ToJSON" then "tojson" else if s = "toJSON" then "tojson" else s
+
+theorem exLower_idem (s : String) : exLower (exLower s) = exLower s := by
+  unfold exLower
+  repeat' split
+  all_goals first | rfl | simp_all
+
+def sy (s : String) : List Sym := s.toList.map fun c => ⟨c.toNat, 1, false⟩
+
+def exΓ : Env :=
+  { vars := [("github", .obj [("event", .obj [("number", .number)] none)] none)],
+    funcs := AL.Gen.funcSigs, specialFuncs := AL.Gen.specialFuncs,
+    availCtx := ["github"], availSpecial := [], configVars := none,
+    lower := exLower, fromJson := fun _ => .otherErr }
+
+/-- `ToJSON(GitHub.Event['Title'])` -/
+def exE : Parse.Expr :=
+  .call (sy "ToJSON") [.index (.objDeref (.var (sy "GitHub")) (sy "Event")) (.str (sy "Title"))]
+/-- `toJSON(github.event['title'])` -/
+def exE' : Parse.Expr :=
+  .call (sy "toJSON") [.index (.objDeref (.var (sy "github")) (sy "event")) (.str (sy "title"))]
+
+theorem exCaseEq : CaseEq exLower exE exE' :=
+  .call _ _ _ _ (by decide +kernel)
+    (.cons _ _ _ _
+      (.indexLit _ _ _ _ (.objDeref _ _ _ _ (.var _ _ (by decide +kernel)) (by decide +kernel)) (by decide +kernel))
+      .nil)
+
+/-- both spellings report the same codes (here `prop-undefined`: `github.event` is strict and has no
+`title`), the same type and the same events -/
+example : codes (check exΓ (toE exLower exE)) = codes (check exΓ (toE exLower exE')) ∧
+    (check exΓ (toE exLower exE)).ty = (check exΓ (toE exLower exE')).ty ∧
+    (check exΓ (toE exLower exE)).evs = (check exΓ (toE exLower exE')).evs :=
+  check_case_insensitive exΓ exE exE' exLower_idem exCaseEq
+
+/-- (b) with a real folding function: `TRUE` becomes the variable `true`, never the literal -/
+example : toE AL.Facts.lowerAscii (.var (sy "TRUE")) = .var "true" ∧ toE AL.Facts.lowerAscii (.bool true) = .bool := by
+  refine ⟨?_, by simp only [toE]⟩
+  simp only [toE]
+  congr 1
+
+/-- (c) `{"Name": 1, "NAME": "x"}`: one property `name` (the greater original key `Name` wins) -/
+example : (AL.Json.memberTys AL.Facts.lowerAscii [("NAME", .str), ("Name", .num)] []).map
+    (fun p => (p.1, tyStr p.2)) = [("name", "number")] := by
+  decide +kernel
 
 end AL.C08
